@@ -144,10 +144,11 @@ Fixpoint check_row_addrs_loop (last first_frag : N) (rest : list N) (sorted cont
   match rest with
   | [] => Ok (sorted, contiguous)
   | a :: more =>
-    (* `last_offset + 1` is evaluated for every element (`&=` does not short-circuit) *)
-    if two64 <=? last + 1 then Panic else
+    (* contiguous &= last_offset.checked_add(1) == Some(*addr)   (repo commit 33efb4f; before it
+       `last_offset + 1` overflowed when last_offset was the tombstone u64::MAX).
+       The function cannot fail any more; the outcome type is kept so that callers read the same. *)
     check_row_addrs_loop a first_frag more (sorted && (last <? a))
-      (contiguous && (a =? last + 1) && (addr_frag a =? first_frag))
+      (contiguous && ((last + 1 <? two64) && (a =? last + 1)) && (addr_frag a =? first_frag))
   end.
 Definition check_row_addrs (addrs : list N) : outcome (bool * bool) :=
   match addrs with
@@ -325,10 +326,12 @@ Definition expected_rows (frs : list frag) (offs : list N) : list N :=
 Definition take_agrees_with_scan (frs : list frag) (offs : list N) : Prop :=
   take frs offs = Ok (expected_rows frs offs) \/
   (take frs offs = Err /\ existsb (fun o => negb (in_range frs o)) offs = true).
-(* known-finding class: an offset OTHER THAN THE LAST requested one is out of range. Its tombstone
-   address u64::MAX reaches `last_offset + 1` in check_row_addrs: overflow panic (debug build). *)
-Definition Known_C15_oob_offset_not_last (frs : list frag) (offs : list N) : bool :=
-  existsb (fun o => negb (in_range frs o)) (removelast offs).
+(* known-finding class (what is left after repo commit 33efb4f repaired the `last_offset + 1`
+   overflow of check_row_addrs): TWO OR MORE offsets are requested and ALL of them are out of range.
+   All addresses are then the tombstone u64::MAX: not sorted, not contiguous, so the re-mapping path
+   runs, no fragment owns the address, `batches` is empty and `batches.pop().unwrap()` panics. *)
+Definition Known_C15_all_offsets_oob (frs : list frag) (offs : list N) : bool :=
+  (2 <=? N.of_nat (length offs)) && forallb (fun o => negb (in_range frs o)) offs.
 
 (* well-formed fragment: u32 ids and sizes; deletions distinct and inside the fragment *)
 Definition dv_nodup (D : dvec) : bool :=
